@@ -179,4 +179,96 @@ theorem nodeDefault_cases (st : NsStack) (ns : Option Bytes) :
     · exact Or.inl (by simp [nodeDefault, nsDefault, h])
     · exact Or.inr ⟨u, by simp [nodeDefault, nsDefault, h]⟩
 
+theorem nodeDefault_attrsOf (st : NsStack) (ns : Option Bytes) : attrsOf (nodeDefault st ns).1 = [] := by
+  rcases nodeDefault_cases st ns with h | ⟨u, h⟩ <;> simp [h, attrsOf]
+
+/-- (a) no prefix is declared twice in the start tag, and the stack handed to the content is the declarations of the start tag
+    on top of the inherited stack -/
+theorem startTag_nodup (fx : Fixes) (hn : fx.numbered = true) (hr : fx.reserved = true) (st : NsStack) (ns : Option Bytes)
+    (value : Bytes) (valPfx : PfxData) (attrs : List OAttr) (hK : consistent (reservedOf valPfx attrs) = true) :
+    ((declared (startTagItems fx st ns value valPfx attrs).1).map (·.1)).Nodup ∧
+      (startTagItems fx st ns value valPfx attrs).2 = (declared (startTagItems fx st ns value valPfx attrs).1).reverse ++ st := by
+  rw [startTagItems_eq]
+  have run := tagRest_run fx hn hr (nodeDefault st ns).2 value valPfx attrs
+  have hinv := run.inv hK [] _ rfl ⟨by simp, by simp⟩
+  have hstack := run.stack
+  have hsome := run.declared_some
+  have hnd : ((declared (tagRest fx (nodeDefault st ns).2 value valPfx attrs).1).map (·.1)).Nodup := by
+    have := hinv.1
+    rw [List.append_nil, List.map_reverse, (List.reverse_perm _).nodup_iff] at this
+    exact this
+  simp only [declared_append]
+  rcases nodeDefault_cases st ns with h | ⟨u, h⟩
+  · rw [h] at hstack hnd hsome ⊢
+    simp only [declared, List.nil_append]
+    exact ⟨hnd, hstack⟩
+  · rw [h] at hstack hnd hsome ⊢
+    simp only [declared, List.cons_append, List.nil_append, List.map_cons, List.nodup_cons]
+    refine ⟨⟨?_, hnd⟩, ?_⟩
+    · intro hm
+      obtain ⟨e, he, he1⟩ := List.mem_map.mp hm
+      exact hsome e he he1
+    · rw [hstack]; simp
+
+/-- (b), names: the prefix written in front of an attribute name resolves, in the stack at the END of the start tag, to the
+    module_ns of the attribute (no hypothesis on the values) -/
+theorem startTag_attrs_resolve (fx : Fixes) (hn : fx.numbered = true) (hr : fx.reserved = true) (st : NsStack) (ns : Option Bytes)
+    (value : Bytes) (valPfx : PfxData) (attrs : List OAttr) :
+    AttrsResolve (startTagItems fx st ns value valPfx attrs).2 attrs (attrsOf (startTagItems fx st ns value valPfx attrs).1) := by
+  rw [startTagItems_eq]
+  simp only [attrsOf_append, nodeDefault_attrsOf, List.nil_append]
+  have hsub := mem_reservedOf_attr valPfx attrs
+  unfold tagRest
+  split
+  · exact attrItems_resolve fx hn hr _ _ attrs _ hsub (fun _ _ h _ => h)
+  · simp only [attrsOf_append, prefixData_attrsOf, List.append_nil]
+    exact attrItems_resolve fx hn hr _ _ attrs _ hsub
+      (prefixData_run fx _ [] valPfx _ (mem_reservedOf_node valPfx attrs)).stable
+
+theorem attrItems_values_resolve (fx : Fixes) (hn : fx.numbered = true) (hr : fx.reserved = true) (R : Reserved) (hK : KCons R)
+    (stEnd : NsStack) : ∀ (as : List OAttr) (st : NsStack), (∀ a ∈ as, ∀ e ∈ pairsOf a.valPfx, e ∈ R) →
+      Stable R (attrItems fx R st as).2 stEnd → ∀ a ∈ as, ∀ e ∈ pairsOf a.valPfx, findPrefix e.1 stEnd = some e.2
+  | [], _, _, _, a, ha, _, _ => by simp at ha
+  | b :: as, st, h, hst, a, ha, e, he => by
+    have hsub : ∀ c ∈ as, ∀ e ∈ pairsOf c.valPfx, e ∈ R := fun c hc => h c (by simp [hc])
+    simp only [attrItems] at hst
+    rcases List.mem_cons.mp ha with rfl | ha'
+    · have hm := h a (by simp) e he
+      have h0 := prefixData_resolves fx R R hK a.valPfx (attrName fx R st a).2.2 (h a (by simp)) e he
+      have hc := consistent_compat hK (p := e.1) (u := e.2) hm
+      exact hst _ _ ((attrItems_run fx hn hr R as _ hsub).stable _ _ h0 hc) hc
+    · exact attrItems_values_resolve fx hn hr R hK stEnd as _ hsub hst a ha' e he
+
+/-- (b), values: every (prefix, uri) of the value prefix data of an attribute — and of the node, when its value is printed —
+    resolves to its uri in the stack at the end of the start tag (consistent values) -/
+theorem startTag_values_resolve (fx : Fixes) (hn : fx.numbered = true) (hr : fx.reserved = true) (st : NsStack) (ns : Option Bytes)
+    (value : Bytes) (valPfx : PfxData) (attrs : List OAttr) (hK : consistent (reservedOf valPfx attrs) = true) :
+    (∀ a ∈ attrs, ∀ e ∈ pairsOf a.valPfx,
+        XmlDoc.lookup (startTagItems fx st ns value valPfx attrs).2 (some e.1) = some e.2) ∧
+      (value.isEmpty = false → ∀ e ∈ pairsOf valPfx,
+        XmlDoc.lookup (startTagItems fx st ns value valPfx attrs).2 (some e.1) = some e.2) := by
+  rw [startTagItems_eq]
+  simp only [lookup_some_eq]
+  have hsub := mem_reservedOf_attr valPfx attrs
+  have hnode := mem_reservedOf_node valPfx attrs
+  unfold tagRest
+  split
+  · rename_i hv
+    refine ⟨attrItems_values_resolve fx hn hr _ hK _ attrs _ hsub (fun _ _ h _ => h), ?_⟩
+    intro hv'; rw [hv] at hv'; cases hv'
+  · refine ⟨attrItems_values_resolve fx hn hr _ hK _ attrs _ hsub (prefixData_run fx _ [] valPfx _ hnode).stable, ?_⟩
+    intro _ e he
+    exact prefixData_resolves fx _ [] hK valPfx _ hnode e he
+
+/-- the duplicate-declaration check of the independent reader (`XmlDoc.noDupDecls`) passes on declarations with pairwise
+    different prefixes -/
+theorem noDupDecls_of_nodup : ∀ (l : NsStack), (l.map (·.1)).Nodup → XmlDoc.noDupDecls l = true
+  | [], _ => rfl
+  | e :: r, h => by
+    have h' := List.nodup_cons.mp (by simpa using h : (e.1 :: r.map (·.1)).Nodup)
+    simp only [XmlDoc.noDupDecls, Bool.and_eq_true, Bool.not_eq_true', noDupDecls_of_nodup r h'.2, and_true]
+    rw [List.any_eq_false]
+    intro x hx hxe
+    exact h'.1 (List.mem_map.mpr ⟨x, hx, by simpa using hxe⟩)
+
 end LyModel.XmlTree
